@@ -69,12 +69,12 @@ impl Drop for CounterGuard {
 
 fn worker(
     receiver: Receiver<BoxedDispatchable>,
-    counter: Arc<AtomicUsize>,
+    guard: CounterGuard,
     timeout: Duration,
 ) -> impl FnOnce() {
     move || {
-        counter.fetch_add(1, Ordering::AcqRel);
-        let _guard = CounterGuard(counter);
+        // The slot was reserved by the dispatcher; the worker only releases it.
+        let _guard = guard;
         while let Ok(f) = receiver.recv_timeout(timeout) {
             f.run()
         }
@@ -116,15 +116,24 @@ impl AsyncifyPool {
                 TrySendError::Full(f) => {
                     if self.thread_limit == 0 {
                         panic!("the thread pool is needed but no worker thread is running");
-                    } else if self.counter.load(Ordering::Acquire) >= self.thread_limit {
+                    } else if self
+                        .counter
+                        .fetch_update(Ordering::AcqRel, Ordering::Acquire, |n| {
+                            (n < self.thread_limit).then_some(n + 1)
+                        })
+                        .is_err()
+                    {
                         // SAFETY: we can ensure the type
                         Err(DispatchError(*unsafe {
                             Box::from_raw(Box::into_raw(f).cast())
                         }))
                     } else {
+                        // The limit check and the reservation of the slot are one
+                        // atomic step, so concurrent dispatchers cannot both pass it.
+                        let guard = CounterGuard(self.counter.clone());
                         std::thread::spawn(worker(
                             self.receiver.clone(),
-                            self.counter.clone(),
+                            guard,
                             self.recv_timeout,
                         ));
                         self.sender.send(f).expect("the channel should not be full");
